@@ -281,7 +281,10 @@ pub fn write_float_nonscientific<const FORMAT: u128>(
 
     // Round and truncate the number of significant digits.
     let mut start = integer_cursor;
-    let end = fraction_cursor.min(start + MAX_DIGIT_LENGTH + 1);
+    // The leading zeros of values below 1 are not significant digits, so
+    // they must not count towards the maximum number of digits we keep.
+    let zeros = ltrim_char_count(&buffer[start..fraction_cursor], b'0');
+    let end = fraction_cursor.min(start + zeros + MAX_DIGIT_LENGTH + 1);
     let (mut digit_count, carried) =
         truncate_and_round(buffer, start, end, format.radix(), options);
 
